@@ -330,7 +330,14 @@ type bitmapPairs []bitmapPair
 
 func (p bitmapPairs) Swap(i, j int)      { p[i], p[j] = p[j], p[i] }
 func (p bitmapPairs) Len() int           { return len(p) }
-func (p bitmapPairs) Less(i, j int) bool { return p[i].Count > p[j].Count }
+// Less orders by count, largest first; rows with equal counts by id, so that
+// which of them survive a cut-off (cache size, n) does not depend on map order.
+func (p bitmapPairs) Less(i, j int) bool {
+	if p[i].Count != p[j].Count {
+		return p[i].Count > p[j].Count
+	}
+	return p[i].ID < p[j].ID
+}
 
 // Pair holds an id/count pair.
 type Pair struct {
